@@ -217,6 +217,11 @@ func seqThenCrash(prop string) *ShardResult {
 		// failing I/O: an ID handed to a file whose creation (or the commit after it) failed is not handed out again
 		res.merge(runFault(prop), "fault_")
 	}
+	if prop == "C08" {
+		// failing I/O: a Set that returns nil was stored, one that failed is reported as failed
+		*fBudget = total / 8
+		res.merge(runFault(prop), "fault_")
+	}
 	*fBudget = total
 	if prop == "C08" && *fShard == 0 {
 		heldValueCases(res)
